@@ -180,6 +180,12 @@ func (mr *MigrationRunner) runMigration(ctx context.Context, migrationIndex uint
 		return ctx.Err()
 	}
 
+	if err != nil {
+		// Migrate was interrupted (err is ctx.Err()) and left no state to resume from:
+		// it has not completed, so it must not be recorded as applied.
+		return err
+	}
+
 	mr.metadata.CurrentVersion.Set(migrationIndex)
 	txn := mr.database.NewBatch()
 	if err := WriteSchemaMetadata(txn, mr.metadata); err != nil {
